@@ -371,12 +371,20 @@ class Stream(object):
         Returns:
             str: ``chunked``, ``length``, ``close``.
         '''
-        chunked_match = re.match(
-            r'chunked($|;)',
-            response.fields.get('Transfer-Encoding', '')
-        )
+        # Transfer coding names are case-insensitive and ``chunked`` frames
+        # the message when it is the final coding (RFC 7230 section 3.3.3).
+        if 'Transfer-Encoding' in response.fields:
+            values = response.fields.get_list('Transfer-Encoding')
+        else:
+            values = []
 
-        if chunked_match:
+        codings = [
+            coding.split(';', 1)[0].strip().lower()
+            for coding in ','.join(values).split(',')
+        ]
+        codings = [coding for coding in codings if coding]
+
+        if codings and codings[-1] == 'chunked':
             return 'chunked'
         elif 'Content-Length' in response.fields:
             return 'length'
